@@ -8,6 +8,7 @@ and for every op line
 import Kap.Spec.C05
 import Kap.Gen.C05
 import Kap.Model.C05Parse
+import Kap.Model.C05Eval
 open Kap Kap.C05
 
 namespace Kap.C05.Drv
@@ -137,6 +138,107 @@ def tieParse (c : Ctx) (lambda : Bool) (res : String) : Option String × String 
   | some .err => (if res == "err" then none else some s!"parser model err, observed {res}", "parsetie.err")
   | some .trap => (some s!"parser model TRAPS, observed {res}", "parsetie.trap")
   | some .fuel => (some s!"parser model out of depth, observed {res}", "parsetie.fuel")
+
+/-! ### The evaluator model on the AST the real parser returned -/
+
+section EvalTie
+open Kap.C05.Ev
+
+/-- must agree with `evalPredefined` in harness/c05/evalast.go -/
+def evalPre : List PVar :=
+  [⟨"pi", .int, none⟩, ⟨"ps", .str, none⟩, ⟨"pl", .list, some (true, 1)⟩, ⟨"pbad", .list, none⟩]
+
+def ftOf : String → Option FT
+  | "g" => some .global | "c" => some .chain | "p" => some .property | "d" => some .dynamic | _ => none
+
+def litOf : String → Option VT
+  | "Lb" => some .bool | "Li" => some .int | "Lf" => some .float | "Ld" => some .dur | "Ls" => some .str
+  | "Lr" => some .regex | "L*" => some .star | _ => none
+
+mutual
+/-- The prefix form printed by `serAst` (fuel = number of tokens + 1). -/
+def parseAst : Nat → List String → Option (Ast × List String)
+  | 0, _ => none
+  | _ + 1, [] => none
+  | k + 1, t :: rest =>
+    match litOf t with
+    | some vt => some (.lit vt, rest)
+    | none =>
+      if t == "X" then some (.other, rest)
+      else if t == "U" then
+        match rest with
+        | op :: rest => do let op ← op.toNat?; let (x, rest) ← parseAst k rest; pure (.unary op x, rest)
+        | [] => none
+      else if t == "O" then do
+        let (l, rest) ← parseAst k rest; let (r, rest) ← parseAst k rest; pure (.binary l r, rest)
+      else if t == "M" then do let (x, rest) ← parseAst k rest; pure (.lambda x, rest)
+      else if t == "C" then do
+        let (l, rest) ← parseAst k rest; let (r, rest) ← parseAst k rest; pure (.chain l r, rest)
+      else if t == "[" then
+        match rest with
+        | n :: rest => do let n ← n.toNat?; let (xs, rest) ← parseAstL k n rest; pure (.list xs, rest)
+        | [] => none
+      else if t == "P" then
+        match rest with
+        | n :: rest => do let n ← n.toNat?; let (xs, rest) ← parseAstL k n rest; pure (.program xs, rest)
+        | [] => none
+      else if t == "T" then
+        match rest with
+        | a :: b :: rest => do let a ← unesc a; let b ← unesc b; pure (.typeDecl a b, rest)
+        | _ => none
+      else if t == "V" then
+        match rest with
+        | a :: rest => do let a ← unesc a; let (x, rest) ← parseAst k rest; pure (.decl a x, rest)
+        | [] => none
+      else if t == "I" then
+        match rest with
+        | a :: rest => do let a ← unesc a; pure (.ident a, rest)
+        | [] => none
+      else if t == "F" then
+        match rest with
+        | ft :: name :: n :: rest => do
+          let ft ← ftOf ft; let name ← unesc name; let n ← n.toNat?
+          let (xs, rest) ← parseAstL k n rest; pure (.func ft name xs, rest)
+        | _ => none
+      else none
+def parseAstL : Nat → Nat → List String → Option (AstL × List String)
+  | 0, _, _ => none
+  | _ + 1, 0, rest => some (.nil, rest)
+  | k + 1, n + 1, rest => do
+    let (x, rest) ← parseAst k rest; let (xs, rest) ← parseAstL k n rest; pure (.cons x xs, rest)
+end
+
+mutual
+def astKinds : Ast → List String → List String
+  | .lit _, acc => "lit" :: acc
+  | .unary _ x, acc => astKinds x ("unary" :: acc)
+  | .binary _ _, acc => "binary" :: acc
+  | .lambda _, acc => "lambda" :: acc
+  | .list xs, acc => astKindsL xs ("list" :: acc)
+  | .typeDecl _ _, acc => "typeDecl" :: acc
+  | .decl _ r, acc => astKinds r ("decl" :: acc)
+  | .chain l r, acc => astKinds r (astKinds l ("chain" :: acc))
+  | .func ft _ xs, acc => astKindsL xs ((match ft with | .global => "func.global" | .chain => "func.chain" | .property => "func.property" | .dynamic => "func.dynamic") :: acc)
+  | .program xs, acc => astKindsL xs acc
+  | .ident _, acc => "ident" :: acc
+  | .other, acc => "other" :: acc
+def astKindsL : AstL → List String → List String
+  | .nil, acc => acc
+  | .cons x xs, acc => astKindsL xs (astKinds x acc)
+end
+
+def evalVerdict {α : Type} : R α → String
+  | .ok _ _ => "ok" | .err => "err" | .empty => "empty" | .trap => "trap"
+
+/-- The model's verdicts under three constant oracles (every call fails / answers an object / answers an int). -/
+def modelEval (root : Ast) (ignoreMissing : Bool) : List String :=
+  let mk (a : List OAns) : Env :=
+    { refl := a, lib := a, pre := evalPre, ignoreMissing := ignoreMissing,
+      defersRec := Gen.evalFuncDefersRec == some true, recShape := Gen.evalFuncRecover }
+  [[], List.replicate 256 (.val .other), List.replicate 256 (.val (.lit .int))].map fun a =>
+    evalVerdict (evalTop (mk a) root [])
+
+end EvalTie
 
 structure Acc where
   br : List String := []
@@ -322,6 +424,32 @@ def judgeLine (a : Acc) (l : String) : Except Verdict Acc := do
         acc := acc.add [s!"pbatch.{res}", b1, "l" ++ b2]
       if leak != 0 then throw (.specfail "no-goroutine-leak" s!"pbatch: {leak} goroutine(s) left behind")
       pure { acc with nt := true }
+  | ["evalast", mode, _script] =>
+    match obs with
+    | ["X", how] => throw (.specfail (if how == "hang" then "terminates" else "process-survives") s!"evalast: {how}")
+    | res :: astToks =>
+      if let some r := defineSpec res 0 then throw (fail r)
+      if astToks == ["-"] then
+        -- ast.Parse refused the script: Evaluate returns that error
+        if res != "err" then throw (.mismatch s!"evalast: the script does not parse but Evaluate answered {res}")
+        pure (a.add ["evalast.parse-error"])
+      else
+        let some (root, []) := parseAst (astToks.length + 1) astToks | throw (.badop l)
+        -- tie of the shape assumption of the stack-depth theorem: what the real parser built is `parserShaped`
+        if !Ev.parserShaped root then
+          throw (.mismatch s!"evalast: the AST of the real parser is outside the shape the model assumes (parserShaped): {" ".intercalate astToks}")
+        let vs := modelEval root (mode == "1")
+        if vs.contains "trap" then throw (.mismatch s!"evalast: evaluator model TRAPS, observed {res}")
+        if vs.contains "empty" then throw (.mismatch s!"evalast: evaluator model pops the empty stack, observed {res}")
+        let kinds := (astKinds root []).map (fun k => "evalast.node." ++ k)
+        match vs with
+        | v :: rest =>
+          if rest.all (· == v) then
+            if v != res then throw (.mismatch s!"evalast: evaluator model {v}, observed {res}: {" ".intercalate astToks}")
+            pure { (a.add (s!"evalast.tied.{v}" :: kinds)) with nt := true }
+          else pure (a.add ("evalast.oracle-dependent" :: kinds))
+        | [] => throw (.badop l)
+    | [] => throw (.badop l)
   | ["http", method, _path, enc, _body] =>
     match obs with
     | ["X", how] => throw (.specfail (if how == "hang" then "terminates" else "process-survives") s!"http {method}: {how}")
